@@ -12,7 +12,8 @@ PROPERTY = "C15"
 LEVEL = "exploration"
 RULE = ("Documents as in C09 (both routes: loaded from the harness's own XML rendering in three namespace conventions, "
         "or built from objects), fixed header date. Oracle: W(D) == W(D) byte for byte (also after an intervening parse "
-        "of packets, and through write_xml to two files); dump(D) identical before and after writing (independent "
+        "of packets, after an intervening load of an unrelated document in another namespace convention, and through "
+        "write_xml to two files); dump(D) identical before and after writing (independent "
         "dumper); G1 = W(D), G2 = W(L(G1)), G3 = W(L(G2)): G2 == G3 byte for byte; G1 parses as well-formed XML, every "
         "element's namespace equals the definition's XTCE namespace (no namespace at all for namespace-less "
         "definitions) and it holds no comment or processing-instruction nodes. A write or re-load exception is a "
@@ -21,6 +22,20 @@ RULE = ("Documents as in C09 (both routes: loaded from the harness's own XML ren
 ASSUMPTIONS = ["W is lxml.etree.tostring(definition.to_xml_tree()) with the header date fixed by the document",
                "root causes shared with C09 (write exceptions) are recorded under the property whose check saw them first"]
 EXHAUSTIVE = {"quick": False, "thorough": False}
+
+
+def _other_doc():
+    from vf import pk
+    types = [{"kind": "int", "name": n + "_T", "unit": None,
+              "enc": {"k": "int", "bits": w, "sign": "unsigned", "order": xdoc.BE, "dcal": None, "ccals": None}}
+             for n, w in zip(pk.HEADER_NAMES, pk.HEADER_WIDTHS)]
+    return {"name": "OTHER", "date": "2001-01-01", "root": "CCSDSPacket", "types": types,
+            "params": [{"name": n, "type": n + "_T", "short": None, "long": None} for n in pk.HEADER_NAMES],
+            "containers": [{"name": "CCSDSPacket", "entries": [["p", n] for n in pk.HEADER_NAMES], "base": None,
+                            "match": None, "abstract": False, "short": None, "long": None}]}
+
+
+OTHER_DOC = _other_doc()
 
 
 def W(defn):
@@ -61,6 +76,17 @@ def check_case(ctx, case):
     g1c = W(d0)
     if g1 != g1c:
         return ctx.fail("write-changed-by-parsing", f"writing after parsing packets differs: {first_diff(g1, g1c)}", case)
+    # an intervening load of an unrelated document in another namespace convention must not change W(D)
+    try:
+        other_ns = "default" if (case.get("opts") or {}).get("ns") != "default" or case["route"] == "built" else "prefix"
+        xdoc.load(OTHER_DOC, {"ns": other_ns, "prefix": "zz"})
+        g1d = W(d0)
+    except Exception as e:
+        return ctx.fail("write-raised", f"writing after loading another document raised {e!r} [{exc_sig(e)}]", case,
+                        bucket="write-after-load-raised:" + exc_sig(e))
+    if g1 != g1d:
+        return ctx.fail("write-changed-by-other-load", f"writing after loading an unrelated document differs: "
+                                                       f"{first_diff(g1, g1d)}", case)
     tmp = tempfile.mkdtemp(prefix="vf_c15_")
     try:
         a, b = Path(tmp) / "a.xml", Path(tmp) / "b.xml"
